@@ -45,7 +45,7 @@ CLAIMED["C02"] = ("§3 C02",
 
 CLAIMED["C07"] = ("§3 C07",
     "exhaustiveness of the exporter's dispatchers over adt interfaces, case-level strong field coverage of adt expression nodes, injectivity/coverage of adt.tokenMap from the composite literal, option-to-profile wiring, CFG gates for meaning-preserving guards",
-    "Decides that every exporter dispatcher covers every implementor of the adt interface it switches on, that each expression-side case uses every child and payload of its node onward, that the value exporter consults arcs/base value/arc types/closedness/conjuncts, that adt.tokenMap is injective and covers every operator, that every Profile field set by cue.Value.Syntax is consulted, that a bound is dropped for `uint` only when it is `>=0`, and that mergeValues' struct-less shortcuts are taken only without `...`. It does not decide that the produced expression means the same.",
+    "Decides that every exporter dispatcher covers every implementor of the adt interface it switches on, that each expression-side case uses every child and payload of its node onward, that the value exporter consults arcs/base value/arc types/closedness/conjuncts, that adt.tokenMap is injective and covers every operator, that every Profile field set by cue.Value.Syntax is consulted, that a bound is dropped for `uint` only when it is `>=0`, that mergeValues' struct-less shortcuts are taken only without `...`, that the exporter's nesting counters are balanced on every path, that hoisted let names are identifiers, and that each pass of pivotter.linkDependencies is complete for all dependencies before the next begins (names reserved before let names are chosen). It does not decide that the produced expression means the same.",
     "parenthesisation, let hoisting, reference relinking and label quoting are value-level")
 
 CLAIMED["C10"] = ("§3 C10",
@@ -75,7 +75,7 @@ CLAIMED["C17"] = ("§3 C17",
 
 CLAIMED["C20"] = ("§3 C20",
     "CFG gates and reachability on cmd/cue's runTrim (diff-before-write, --ignore bypass, dry-run), case-level strong field coverage of the trimmer's dependency walker, cooperating-site agreement",
-    "Narrow: decides that cue trim writes files only after the trimmed package was rebuilt through the overlay and diffed against the original with a non-Identity result aborting (or --ignore), never on --dry-run or after a trim error; that the dependency walker uses every child expression of each node/clause kind it handles; and that both cooperating sites exclude self-dependent comprehension output. It does not decide that trim.Files removes only implied fields nor idempotence; walker cases that are absent are listed for review, not judged.",
+    "Narrow: decides that cue trim writes files only after the trimmed package was rebuilt through the overlay and diffed against the original with a non-Identity result aborting (or --ignore), never on --dry-run or after a trim error; that the dependency walker uses every child expression of each node/clause kind it handles; that both cooperating sites exclude self-dependent comprehension output, that the conjuncts of both kinds of constraint field (`?` and `!`) are excluded from the winners, and that a disjunction becomes an overriding winner only after all its default branches were examined. It does not decide that trim.Files removes only implied fields nor idempotence; walker cases that are absent are listed for review, not judged.",
     "diff.Final.Diff is the oracle the command relies on (it compares scalars by kind only, see seeded/C20-a)")
 
 CLAIMED["C06"] = ("§3 C06",
